@@ -416,6 +416,14 @@ func c01BracketRegions(c *Ctx) {
 		return cal != nil && cal.Signature.Recv() != nil && isNamed(cal.Signature.Recv().Type(), hclsyntaxPath, "parser") &&
 			(strings.HasPrefix(cal.Name(), "parse") || strings.HasPrefix(cal.Name(), "Parse") || strings.HasPrefix(cal.Name(), "finishParsing"))
 	}
+	// the recovery helpers look for the closing delimiter themselves (resolved as anchors, so that a
+	// rename of one of them is followed)
+	recoverFns := map[*ssa.Function]bool{}
+	for _, n := range []string{"recover", "recoverOver", "recoverAfterBodyItem"} {
+		if f := c.P.LookupFunc("hclsyntax", "parser."+n); f != nil {
+			recoverFns[f] = true
+		}
+	}
 	// closerValue: a TokenType value that can only be a closing delimiter (constant, or phi of such)
 	var closerValue func(v ssa.Value, d int) bool
 	closerValue = func(v ssa.Value, d int) bool {
@@ -443,7 +451,7 @@ func c01BracketRegions(c *Ctx) {
 		switch x := ins.(type) {
 		case *ssa.Call:
 			cal := staticCallee(&x.Call)
-			if cal != nil && (cal.Name() == "recover" || cal.Name() == "recoverOver" || cal.Name() == "recoverAfterBodyItem") {
+			if cal != nil && recoverFns[cal] {
 				return true
 			}
 			if cal != nil && consumesCloser[cal] {
